@@ -120,6 +120,16 @@ CLAIMED.update({
                      "(handshake model covers the no-authenticator path), boost::random's jitter distribution (only its configured range is used). The jitter generator is seeded from std::time in the code; the monitor accepts any value in the range.",
                 technique="Lean 4 theorems (induction over outcome sequences, kernel-evaluated reason-code table) + translator for constants + lock-step/differential correspondence with the real stream stack under ASan; virtual-time trace monitor",
                 design="§5 C10", engine="h_stream"),
+    "C18": dict(text="Proof on the decoder index model (Model/Dec.lean: base_decoders + message_decoders), for encoded bytes standing anywhere in a buffer: the property block decoder returns, for every list of "
+                     "well-typed properties the packet type allows, in any order and with any repetition, exactly the content of the library's property container after assigning them in wire order (canon); "
+                     "PUBACK/PUBREC/PUBREL/PUBCOMP/DISCONNECT/AUTH bodies in full form, with omitted Property Length and with omitted reason code; CONNACK; SUBACK/UNSUBACK (all reason codes in order); PUBLISH "
+                     "(topic, Packet Identifier iff QoS > 0, properties, payload = every remaining byte); the container content is a fixed point, so the re-encoded acknowledgement decodes to the same contents. "
+                     "Tied to the real decoders by the `dec` lock-step on well-formed packets from an independent reference encoder (Python) and on damaged packets, in exact-size heap blocks under ASan/UBSan; "
+                     "decoded values are also compared with the values the reference encoder was given, and re-encoded by the real encoders and decoded by the reference decoder.",
+                note=COMMON_NOTE + "The bytes in the theorems are described by the encoder model's combinators (Model/Enc.lean, itself tied to the real encoders and inverted by the strict spec decoder in C17); the "
+                     "independent Python encoder is used on the implementation side only. UTF-8 validity of decoded strings and the fixed-header framing are outside these theorems (framing: C19 frame model).",
+                technique="Lean 4 theorems (induction over property lists on an index-based buffer model, idempotence of the container content) + lock-step/differential correspondence with the real decoders under ASan/UBSan",
+                design="§5 C18", engine="h_guard,h_codec"),
     "C19": dict(text="Proof: (a) decoder index model (base_decoders/message_decoders): for every buffer content, position and Remaining Length inside the received bytes no decoder reads outside the packet, a success ends inside it, "
                      "and an accepted CONNACK/PUBACK/PUBREC/PUBREL/PUBCOMP/DISCONNECT/AUTH body was consumed to its last byte; (b) frame model (assemble_op): verdicts are stable under later bytes, every packet taken off the buffer "
                      "removes >= 2 bytes and the parse loop's bound is never reached (no hang), a packet body fits the receive buffer, and for every byte string and any two chunkings the same packets are recognised in the same order "
